@@ -497,8 +497,11 @@ impl QueryFilter {
             | ColumnPredicate::LtEq(col, val)
             | ColumnPredicate::Gt(col, val)
             | ColumnPredicate::GtEq(col, val) => {
-                if let Some(column) = batch.column_by_name(col) {
-                    Self::apply_comparison(pred, column, val, mask);
+                match batch.column_by_name(col) {
+                    Some(column) => Self::apply_comparison(pred, column, val, mask),
+                    // A batch from a client that does not send this label: the label is
+                    // NULL for every row, and a comparison with NULL selects no row.
+                    None => mask.fill(false),
                 }
             }
             ColumnPredicate::And(left, right) => {
@@ -530,6 +533,8 @@ impl QueryFilter {
                             *m = values.iter().any(|v| Self::row_matches_value(column, i, v));
                         }
                     }
+                } else {
+                    mask.fill(false);
                 }
             }
             ColumnPredicate::NotIn(col, values) => {
@@ -539,6 +544,8 @@ impl QueryFilter {
                             *m = !values.iter().any(|v| Self::row_matches_value(column, i, v));
                         }
                     }
+                } else {
+                    mask.fill(false);
                 }
             }
             ColumnPredicate::Between(col, low, high) => {
@@ -549,6 +556,8 @@ impl QueryFilter {
                                 && Self::row_lte_value(column, i, high);
                         }
                     }
+                } else {
+                    mask.fill(false);
                 }
             }
         }
